@@ -465,12 +465,17 @@ def spec_verdicts(chk, cases, impl_outs, spec_fn, label, describe):
     return spec_outs
 
 
+WHOLE_RECORD_CASES = []      # filled by apply_rules_stream: one whole-record specification input per case
+
+
 def apply_rules_stream(chk, rng, trees, names, n_cases):
     """ apply_cluster_rules with one rule on a real Record; the promotion of ancillary hits to rule hits """
     import detect_util
     from antismash.common.hmm_rule_parser import rule_parser as rp, cluster_prediction
     from antismash.common.hmm_rule_parser.structures import ProfileHit
     cases, impl_outs, inputs = [], [], []
+    whole_cases = WHOLE_RECORD_CASES
+    del whole_cases[:]
     while len(cases) < n_cases:
         if rng.random() < 0.6:
             tree = ("group", False, trees.items(rng.choice([0, 1, 2]), False))
@@ -507,6 +512,32 @@ def apply_rules_stream(chk, rng, trees, names, n_cases):
             rng.shuffle(order)
             hits = {i: [(order[i], 100)] for i in range(k)}
             chk.count("apply_directed_chain")
+        elif rng.random() < 0.15:
+            # directed: a cds() group without a positive member next to a positive requirement; whether it holds is decided
+            # by a gene in range that has NO hit at all (or no entry in the results)
+            x, a, b = rng.sample(range(NPROF), 3)
+            inner = rng.choice([[("and", [("single", True, a), ("single", True, b)])],
+                                [("or", [("single", True, a), ("single", False, b)])],
+                                [("c", ("single", True, a))]])
+            tree = ("group", False, [("and", [("single", False, x), ("cds", rng.random() < 0.4, inner)])])
+            try:
+                conditions = build(tree)
+                cutoff = rng.choice([5, 20])
+                rule = rp.DetectionRule("r", "cat", cutoff, 0, conditions)
+            except ValueError:
+                chk.count("apply_rejected")
+                continue
+            pos, genes, circ = rng.randint(0, 5), [], None
+            for i in range(3):
+                length = rng.randint(2, 9)
+                genes.append((i, [(pos, pos + length, rng.choice([1, -1]))]))
+                pos += length + rng.choice([1, cutoff - 1, cutoff - 1, cutoff])
+            owners = [0, 1, 2]
+            rng.shuffle(owners)
+            hits = {owners[0]: [(x, 100), (a, 100)], owners[1]: [(b, 100)]}
+            if rng.random() < 0.5:
+                hits[owners[2]] = []
+            chk.count("apply_directed_hitless_neighbour")
         if not hits:
             continue
         end = max(e for _, parts in genes for _, e, _ in parts)
@@ -542,6 +573,14 @@ def apply_rules_stream(chk, rng, trees, names, n_cases):
             gl = [(int(f[1:]), parts_of[int(f[1:])]) for f in feat_names]
             flat += [int(name[1:])] + enc_ctx(cutoff, origin, gl, {int(k[1:]): v for k, v in res.items()})
         flat += enc_tree(tree)
+        # the same record WITHOUT looking at what the implementation handed to rule.detect: every gene of the results
+        # dictionary is evaluated against ALL genes and ALL hits of the record (the evaluator's own range test sorts out
+        # the genes beyond the cutoff); the specification of the property on this input must give what was recorded
+        origin = length if circ else 0
+        whole = [PROP, 3, len(results)]
+        for gname in sorted(results, key=lambda g: min(s for s, _, _ in parts_of[int(g[1:])])):
+            whole += [int(gname[1:])] + enc_ctx(cutoff, origin, genes, hits)
+        whole_cases.append(whole + enc_tree(tree))
         recorded = {int(g[1:]): sorted(names[m] for m in by_rule["r"]) for g, by_rule in domains.items() if "r" in by_rule}
         out = [len(recorded)]
         for gid in sorted(recorded):
@@ -1583,6 +1622,9 @@ def run(chk):
 
     a_cases, a_impl, a_inputs = apply_rules_stream(chk, rng, trees, names, 2500 if chk.tier == "quick" else 40000)
     a_spec = spec_verdicts(chk, a_cases, a_impl, 4, "apply_cluster_rules (one rule) vs recorded_spec", lambda i: a_inputs[i])
+    spec_verdicts(chk, WHOLE_RECORD_CASES, a_impl, 4,
+                  "apply_cluster_rules vs recorded_spec on the WHOLE record (every gene and hit of the record as context, "
+                  "not the neighbourhood the implementation handed to rule.detect)", lambda i: a_inputs[i])
     a_model = common.correspondence(chk, a_cases, a_impl, label="apply_cluster_rules promotion loop: model vs implementation",
                                     describe=lambda flat: {"function": "apply_cluster_rules", "payload": flat[2:]})
     differ = [i for i, (m, s) in enumerate(zip(a_model, a_spec)) if m != s]
